@@ -89,6 +89,7 @@ const (
 
 type lcCase struct {
 	pkg, typ string
+	kinds    []string // documented error kinds for this misuse (any element of the error's cause chain may carry it)
 	args     func(fn *ssa.Function, args []Value) // optional: constants for parameters
 	sc       scenario
 	// expect returns the expectation for a method, or false if the scenario does not make it invalid
@@ -109,13 +110,22 @@ func nameIn(n string, set ...string) bool {
 	return false
 }
 
+// finKinds: a finished transaction reports TxFinished; for a finished read-only transaction the write
+// operations may report TxReadOnly instead (both are documented for that call).
+func finKinds(readonly bool) []string {
+	if readonly {
+		return []string{"TxFinished", "TxReadOnly"}
+	}
+	return []string{"TxFinished"}
+}
+
 func lifecycleCases(p *Program) []lcCase {
 	var cases []lcCase
 	pageWriteOps := []string{"MarkDirty", "Free", "Load", "SetBytes", "Flush"}
 	txWriteOps := []string{"Alloc", "AllocN", "CheckpointWAL", "Flush"}
 	for _, ro := range []bool{false, true} {
 		fin := finishedTxScenario(p, ro)
-		cases = append(cases, lcCase{pkg: "txfile", typ: "Tx", sc: fin, expect: func(fn *ssa.Function, hasErr bool) (lcExpect, bool) {
+		cases = append(cases, lcCase{pkg: "txfile", typ: "Tx", sc: fin, kinds: finKinds(ro), expect: func(fn *ssa.Function, hasErr bool) (lcExpect, bool) {
 			if fn.Name() == "Close" {
 				return lcNoPanic, true // documented: Close on a finished tx is ignored
 			}
@@ -127,7 +137,7 @@ func lifecycleCases(p *Program) []lcCase {
 			}
 			return lcNoPanic, true
 		}})
-		cases = append(cases, lcCase{pkg: "txfile", typ: "Page", sc: fin, expect: func(fn *ssa.Function, hasErr bool) (lcExpect, bool) {
+		cases = append(cases, lcCase{pkg: "txfile", typ: "Page", sc: fin, kinds: finKinds(ro), expect: func(fn *ssa.Function, hasErr bool) (lcExpect, bool) {
 			if hasErr {
 				return lcMustError, true
 			}
@@ -136,13 +146,13 @@ func lifecycleCases(p *Program) []lcCase {
 	}
 	roTx := txScenario(true, true)
 	roTx.name = "tx-readonly"
-	cases = append(cases, lcCase{pkg: "txfile", typ: "Tx", sc: roTx, expect: func(fn *ssa.Function, hasErr bool) (lcExpect, bool) {
+	cases = append(cases, lcCase{pkg: "txfile", typ: "Tx", sc: roTx, kinds: []string{"TxReadOnly"}, expect: func(fn *ssa.Function, hasErr bool) (lcExpect, bool) {
 		if nameIn(fn.Name(), txWriteOps...) {
 			return lcMustError, true
 		}
 		return 0, false
 	}})
-	cases = append(cases, lcCase{pkg: "txfile", typ: "Page", sc: roTx, expect: func(fn *ssa.Function, hasErr bool) (lcExpect, bool) {
+	cases = append(cases, lcCase{pkg: "txfile", typ: "Page", sc: roTx, kinds: []string{"TxReadOnly"}, expect: func(fn *ssa.Function, hasErr bool) (lcExpect, bool) {
 		if nameIn(fn.Name(), pageWriteOps...) {
 			return lcMustError, true
 		}
@@ -152,7 +162,7 @@ func lifecycleCases(p *Program) []lcCase {
 		sc := txScenario(false, true)
 		sc.name = "page-" + flag
 		sc.consts["txfile.Page.flags."+flag] = constBool(true)
-		cases = append(cases, lcCase{pkg: "txfile", typ: "Page", sc: sc, expect: func(fn *ssa.Function, hasErr bool) (lcExpect, bool) {
+		cases = append(cases, lcCase{pkg: "txfile", typ: "Page", sc: sc, kinds: []string{"InvalidOp"}, expect: func(fn *ssa.Function, hasErr bool) (lcExpect, bool) {
 			if nameIn(fn.Name(), pageWriteOps...) {
 				return lcMustError, true
 			}
@@ -164,7 +174,7 @@ func lifecycleCases(p *Program) []lcCase {
 	dirty.consts["txfile.Page.flags.dirty"] = constBool(true)
 	dirty.consts["txfile.Page.flags.freed"] = constBool(false)
 	dirty.consts["txfile.Page.flags.flushed"] = constBool(false)
-	cases = append(cases, lcCase{pkg: "txfile", typ: "Page", sc: dirty, expect: func(fn *ssa.Function, hasErr bool) (lcExpect, bool) {
+	cases = append(cases, lcCase{pkg: "txfile", typ: "Page", sc: dirty, kinds: []string{"InvalidOp"}, expect: func(fn *ssa.Function, hasErr bool) (lcExpect, bool) {
 		if fn.Name() == "Free" {
 			return lcMustError, true
 		}
@@ -175,7 +185,7 @@ func lifecycleCases(p *Program) []lcCase {
 	fresh.name = "page-new-without-buffer"
 	fresh.consts["txfile.Page.flags.new"] = constBool(true)
 	fresh.consts["txfile.Page.bytes"] = NilV{true}
-	cases = append(cases, lcCase{pkg: "txfile", typ: "Page", sc: fresh, expect: func(fn *ssa.Function, hasErr bool) (lcExpect, bool) {
+	cases = append(cases, lcCase{pkg: "txfile", typ: "Page", sc: fresh, kinds: []string{"InvalidOp"}, expect: func(fn *ssa.Function, hasErr bool) (lcExpect, bool) {
 		if fn.Name() == "Bytes" {
 			return lcMustError, true
 		}
@@ -184,21 +194,21 @@ func lifecycleCases(p *Program) []lcCase {
 
 	// ---- pq ----
 	wClosed := scenario{name: "writer-closed", consts: map[string]Value{"pq.Writer.active": constBool(false), "pq.Writer.state.buf": NilV{true}}}
-	cases = append(cases, lcCase{pkg: "pq", typ: "Writer", sc: wClosed, expect: func(fn *ssa.Function, hasErr bool) (lcExpect, bool) {
+	cases = append(cases, lcCase{pkg: "pq", typ: "Writer", sc: wClosed, kinds: []string{"WriterClosed"}, expect: func(fn *ssa.Function, hasErr bool) (lcExpect, bool) {
 		if hasErr {
 			return lcMustError, true
 		}
 		return lcNoPanic, true
 	}})
 	rClosed := scenario{name: "reader-closed", consts: map[string]Value{"pq.Reader.active": constBool(false)}}
-	cases = append(cases, lcCase{pkg: "pq", typ: "Reader", sc: rClosed, expect: func(fn *ssa.Function, hasErr bool) (lcExpect, bool) {
+	cases = append(cases, lcCase{pkg: "pq", typ: "Reader", sc: rClosed, kinds: []string{"ReaderClosed"}, expect: func(fn *ssa.Function, hasErr bool) (lcExpect, bool) {
 		if hasErr {
 			return lcMustError, true
 		}
 		return lcNoPanicEffectsOK, true // Done() on a closed reader may still close its transaction
 	}})
 	rNoTx := scenario{name: "reader-without-tx", consts: map[string]Value{"pq.Reader.active": constBool(true), "pq.Reader.tx": NilV{true}}}
-	cases = append(cases, lcCase{pkg: "pq", typ: "Reader", sc: rNoTx, expect: func(fn *ssa.Function, hasErr bool) (lcExpect, bool) {
+	cases = append(cases, lcCase{pkg: "pq", typ: "Reader", sc: rNoTx, kinds: []string{"InactiveTx"}, expect: func(fn *ssa.Function, hasErr bool) (lcExpect, bool) {
 		if fn.Name() == "Begin" {
 			return 0, false
 		}
@@ -210,7 +220,7 @@ func lifecycleCases(p *Program) []lcCase {
 	// queue closed before any handle was created: the lazy getters must not hand out live handles
 	qClosed := scenario{name: "queue-closed", consts: map[string]Value{"pq.Queue.closed": constBool(true),
 		"pq.Queue.reader": NilV{true}, "pq.Queue.writer": NilV{true}, "pq.Queue.acker": NilV{true}}}
-	cases = append(cases, lcCase{pkg: "pq", typ: "Queue", sc: qClosed,
+	cases = append(cases, lcCase{pkg: "pq", typ: "Queue", sc: qClosed, kinds: []string{"QueueClosed"},
 		args: func(fn *ssa.Function, args []Value) {
 			if fn.Name() == "ACK" && len(args) > 1 {
 				args[1] = constInt(1) // ACK(0) is a documented no-op
@@ -233,7 +243,7 @@ func ruleLIFECYCLE(p *Program, rep *Report, only string) {
 	if only != "" {
 		floor = 20
 	}
-	rep.Rule("LIFECYCLE", floor, "method × lifecycle-state matrix under scenario constants: invalid calls return a non-nil error, never reach a definite nil dereference, and have no lock/writer/shared-state effect (engine A)")
+	rep.Rule("LIFECYCLE", floor, "method × lifecycle-state matrix under scenario constants: invalid calls return a non-nil error whose kind (own or of a cause in its chain) is the documented one, never reach a definite nil dereference, and have no lock/writer/shared-state effect (engine A)")
 	effFns := lifecycleEffectFns(p)
 	for _, c := range lifecycleCases(p) {
 		if only != "" && !strings.Contains(c.sc.name, only) {
@@ -309,12 +319,37 @@ func runLifecycleCase(p *Program, rep *Report, effFns map[*ssa.Function]string, 
 			}
 		}
 	}
+	if exp == lcMustError && len(c.kinds) > 0 {
+		for _, e := range exits {
+			if errOfExit(fn, e) != 2 {
+				continue
+			}
+			chain := kindOfExit(in, fn, e)
+			if strings.Contains(chain, "?") {
+				continue // kind not determined statically on this path: not decided (no alarm)
+			}
+			hit := false
+			for _, k := range strings.Split(chain, "<") {
+				if nameIn(k, c.kinds...) {
+					hit = true
+				}
+			}
+			if !hit {
+				problems = append(problems, "returns an error of kind "+chain+", the documented kind for this misuse is "+strings.Join(c.kinds, " or "))
+				witness = append(witness, "return value "+e.ret.vstr())
+			}
+		}
+	}
 	if exp != lcNoPanicEffectsOK && len(pl.effects) > 0 {
 		problems = append(problems, "has effects although the call is invalid")
 		witness = append(witness, pl.effects...)
 	}
 	if debugVerbose {
-		fmt.Printf("lifecycle %-50s exits=%d reports=%d effects=%d problems=%v\n", name, len(exits), len(in.reports), len(pl.effects), problems)
+		var ks []string
+		for _, e := range exits {
+			ks = append(ks, kindOfExit(in, fn, e))
+		}
+		fmt.Printf("lifecycle %-50s exits=%d reports=%d effects=%d kinds=%v problems=%v\n", name, len(exits), len(in.reports), len(pl.effects), ks, problems)
 	}
 	if len(problems) > 0 {
 		sort.Strings(problems)
@@ -375,16 +410,27 @@ func kindOfValue(in *Interp, st *State, v Value, depth int) string {
 	if !ok {
 		return "?"
 	}
+	own, cause := "?", ""
 	for i := 0; i < stt.NumFields(); i++ {
-		if stt.Field(i).Name() == "kind" {
+		switch stt.Field(i).Name() {
+		case "kind":
 			k := in.loadCell(st, in.kid(pv.cell, "kind", stt.Field(i).Type()))
 			if _, isNil := k.(NilV); isNil {
-				return "unset"
+				own = "unset"
+			} else {
+				own = kindOfValue(in, st, k, depth+1)
 			}
-			return kindOfValue(in, st, k, depth+1)
+		case "cause":
+			c := in.loadCell(st, in.kid(pv.cell, "cause", stt.Field(i).Type()))
+			if _, isNil := c.(NilV); !isNil {
+				cause = kindOfValue(in, st, c, depth+1)
+			}
 		}
 	}
-	return "?"
+	if cause != "" {
+		return own + "<" + cause
+	}
+	return own
 }
 
 func kindConstName(n *types.Named, c ConstV) string {
